@@ -1,1 +1,1 @@
-from . import T, T9, D, D6, P, P_tostr, P_parse, F, E, P_more, P_more2  # noqa: F401
+from . import T, T9, D, D6, P, P_tostr, P_parse, F, E, P_more, P_more2, P_more3  # noqa: F401
